@@ -83,6 +83,17 @@ pub fn wrappers(x: &str, cfg: &Cfg, tier: Tier) -> Vec<(String, String, Vec<(Str
         out.push((format!("h{level}"), format!("<h{level}>{x}</h{level}>"), vec![(h1, hn, x.to_string())]));
     }
     out.push(("dl/dd".to_string(), format!("<dl><dd>{x}</dd></dl>"), vec![("  ".to_string(), "  ".to_string(), x.to_string())]));
+    // two term/definition pairs: the term lines stand unprefixed between the definition blocks
+    out.push((
+        "dl/2".to_string(),
+        format!("<dl><dt>qf</dt><dd>{x}</dd><dt>qg</dt><dd>qz</dd></dl>"),
+        vec![
+            (String::new(), String::new(), "<dl><dt>qf</dt></dl>".to_string()),
+            ("  ".to_string(), "  ".to_string(), x.to_string()),
+            (String::new(), String::new(), "<dl><dt>qg</dt></dl>".to_string()),
+            ("  ".to_string(), "  ".to_string(), "qz".to_string()),
+        ],
+    ));
     // ordered lists with an item that has no content at all: it renders no line but still
     // takes a number (and counts for the common marker width)
     for (st, empties) in [(1i64, vec![1usize]), (8, vec![2]), (-1, vec![0]), (9, vec![0, 1])] {
@@ -220,7 +231,7 @@ impl Scope for S {
     }
     fn info(&self) -> Info {
         Info {
-            rule: "wrappers {blockquote, ul (1 and 3 items), h1..h6, dl/dd, ol with start in {absent,-100,-10,-1,0,1,8,9,98,99,999} and 1..15 items} around every content document of the grammar (so prefixes stack), x widths x {rich, plain without footnotes, trivial, rich+pad, rich+max_wrap_width}; every outer rendering is compared with the composition of the separately rendered contents; non-trivial = some item has a continuation line".into(),
+            rule: "wrappers {blockquote, ul (1 and 3 items), h1..h6, dl/dd, dl with two term/definition pairs, ol with start in {absent,-100,-10,-1,0,1,8,9,98,99,999} and 1..15 items} around every content document of the grammar (so prefixes stack), x widths x {rich, plain without footnotes, trivial, rich+pad, rich+max_wrap_width}; every outer rendering is compared with the composition of the separately rendered contents; non-trivial = some item has a continuation line".into(),
             bounds: json!({"contents": self.contents.len(), "widths": self.widths, "configurations": cfgs().iter().map(|c| c.short()).collect::<Vec<_>>()}),
             assumptions: vec!["link footnotes are disabled (their numbering is global by design; C08 covers it)".into()],
         }
@@ -232,7 +243,11 @@ impl Prop for P {
     }
     fn build(&self, tier: Tier) -> Box<dyn Scope> {
         let g = G { tables: true, pre: true, valid_only: true };
-        let contents: Vec<String> = block_docs(tier.pick(1, 2), g).iter().map(|d| html(d)).collect();
+        let mut contents: Vec<String> = block_docs(tier.pick(1, 2), g).iter().map(|d| html(d)).collect();
+        // inline text before and after a nested block inside the same item
+        for extra in ["qa<ul><li>qb</li></ul>qc", "<p>qa</p>qb qc", "qa<blockquote>qb</blockquote>qc <em>qd</em>", "qa<ol><li>qb</li><li>qc</li></ol>", "<dl><dt>qa</dt><dd><p>qb</p></dd><dt>qc</dt><dd>qd</dd></dl>qe"] {
+            contents.push(extra.to_string());
+        }
         let widths: Vec<usize> = match tier {
             Tier::Quick => (3..=20).collect(),
             Tier::Thorough => (3..=40).chain([50, 64, 80, 100]).collect(),
